@@ -30,8 +30,11 @@
 (* certain at that point (an "E" is never sharpened by what follows).                                          *)
 (*                                                                                                             *)
 (* The state space IS the quantifier of the property: Init = every (encoding, base) of the menu, Next = every  *)
-(* truncation, every boundary value in every word, every single splice.  TLC checks the claims below on every  *)
-(* mutant and (EMIT) prints each one as a JSON line for harness/mut.cpp.                                       *)
+(* truncation (Trunc), every boundary value in every word (Word), every single splice where a nested node and  *)
+(* its parent disagree (Splice), every String terminator replaced (Term).  TLC checks the claims at the bottom *)
+(* on every mutant and (EMIT) prints each one as a JSON line for harness/mut.cpp, mut_mini.c, mut_micro.c.     *)
+(* Wrong # {} switches on one deliberate error (in Enc, in Rd or in the mutation operator); checks/c02.py runs *)
+(* them to show that the invariants can fail.  TLC's -coverage mode is unusable here (deep recursion).         *)
 (***************************************************************************************************************)
 EXTENDS Integers, Sequences, FiniteSets, TLC, Json
 
@@ -110,13 +113,14 @@ EncMini(chunks) == W(MMAGIC) \o W(0) \o W(7) \o Cat([i \in 1..Len(chunks) |-> W(
 (* word tables.  e = bytes between the end of the word and the end of the enclosing node; ce = end offset of the
    content a length word governs (-1 for words that are not lengths); d = nesting depth *)
 
-Wd(k, off, n, end, ce, d) == [k |-> k, off |-> off, n |-> n, e |-> end - (off+4), ce |-> ce, d |-> d]
+Wd(k, off, n, end, ce, d) == [k |-> k, off |-> off, n |-> n, e |-> end - (off+4), ce |-> ce, d |-> d, z |-> FALSE]
+WdZ(k, off, n, end, ce, d) == [Wd(k, off, n, end, ce, d) EXCEPT !.z = TRUE]      \* z: the content ends with the NUL of a flattened String
 
 RECURSIVE MapMsg(_, _, _, _), MapFields(_, _, _, _, _), MapSubs(_, _, _, _, _), MapVar(_, _, _, _, _, _)
 MapVar(items, i, off, end, isStr, d) ==
    IF i > Len(items) THEN <<>>
    ELSE LET l == Len(items[i]) + (IF isStr THEN 1 ELSE 0) IN
-        <<Wd("itemlen", off, l, end, off+4+l, d)>> \o MapVar(items, i+1, off+4+l, end, isStr, d)
+        <<IF isStr THEN WdZ("itemlen", off, l, end, off+4+l, d) ELSE Wd("itemlen", off, l, end, off+4+l, d)>> \o MapVar(items, i+1, off+4+l, end, isStr, d)
 MapSubs(items, i, off, end, d) ==
    IF i > Len(items) THEN <<>>
    ELSE LET l == Len(EncMsg(items[i])) IN
@@ -124,7 +128,7 @@ MapSubs(items, i, off, end, d) ==
 MapFields(fs, i, off, end, d) ==
    IF i > Len(fs) THEN <<>>
    ELSE LET f == fs[i]  L == Len(f.name)+1  P == Len(EncPayload(f))  po == off+4+L+8  tc == TCv(f) IN
-        <<Wd("namelen", off, L, end, off+4+L, d), Wd("type", off+4+L, tc, end, -1, d), Wd("paylen", off+8+L, P, end, po+P, d)>>
+        <<WdZ("namelen", off, L, end, off+4+L, d), Wd("type", off+4+L, tc, end, -1, d), Wd("paylen", off+8+L, P, end, po+P, d)>>
         \o (IF FixSize(tc) > 0 THEN <<>>
             ELSE IF tc = TC.message THEN MapSubs(f.items, 1, po, po+P, d)
             ELSE <<Wd("count", po, Len(f.items), po+P, -1, d)>> \o MapVar(f.items, 1, po+4, po+P, tc = TC.string, d))
@@ -302,6 +306,7 @@ RdMini(b, base) ==
    IF b = base THEN Res("A", Len(b), "", NoVal)
    ELSE IF Len(b) < 12 THEN Res("R", 0, "packet-header-incomplete", NoVal)
    ELSE IF V(b, 0) # MMAGIC THEN Res("R", 0, "magic", NoVal)
+   ELSE IF Len(b) >= 16 /\ b[12] = 0 /\ V(b, 12) > Len(b) - 16 THEN Res("R", 12, "chunk-overruns", NoVal)     \* (level byte 0: the chunks are not deflated) the first chunk is not all there: nothing to hand over
    ELSE Res("E", 0, "", NoVal)
 
 ----------------------------------------------------------------------------------------------------------------
@@ -466,7 +471,7 @@ Mk(enc, i, k, pos, wd, w, sp, b, baseb) ==
            ELSE CASE enc = "tun" -> TunBases[i].dl [] enc = "mtun" -> MiniBases[i].dl [] OTHER -> 1,      \* Messages handed over by a gateway
     full |-> IF j.v = "A" /\ enc = "tmpl" THEN EncMsg(j.val) ELSE <<>>,      \* the Message a templated "A" mutant stands for
     nf |-> IF j.v = "A" /\ enc \in {"msg", "frame", "tmpl"} THEN Len(j.val.fields) ELSE -1]
-NoWd == [k |-> "-", off |-> -1, n |-> -1, e |-> -1, ce |-> -1, d |-> 0]
+NoWd == [k |-> "-", off |-> -1, n |-> -1, e |-> -1, ce |-> -1, d |-> 0, z |-> FALSE]
 Out(m) == [enc |-> m.enc, base |-> m.base, k |-> m.k, pos |-> m.pos, wk |-> m.wk, w |-> m.w, sp |-> m.sp, v |-> m.v, why |-> m.why,
            d |-> m.d, nf |-> m.nf, dl |-> m.dl, full |-> m.full, b |-> m.b]
 Emit(m) == EMIT => PrintT("@@" \o ToJson(Out(m)))
@@ -490,7 +495,14 @@ Splice == /\ mu.k = "base"
                 /\ SpliceOK(map[j], s)
                 /\ mu' = Mk(mu.enc, mu.base, "splice", map[j].off, map[j], <<>>, s, DoSplice(mu.b, map[j], s), mu.b)
           /\ Emit(mu')
-Next == Trunc \/ Word \/ Splice
+(* the terminator of a flattened String (field name, string item) replaced by a letter: the only structural byte that is not part of a word *)
+Term ==   /\ mu.k = "base"
+          /\ LET map == BaseOf(mu.enc, mu.base).map IN
+             \E j \in 1..Len(map) :
+                /\ map[j].z
+                /\ mu' = Mk(mu.enc, mu.base, "term", map[j].off, map[j], <<>>, "-", SubSeq(mu.b, 1, map[j].ce - 1) \o <<65>> \o SubSeq(mu.b, map[j].ce + 1, Len(mu.b)), mu.b)
+          /\ Emit(mu')
+Next == Trunc \/ Word \/ Splice \/ Term
 Spec == Init /\ [][Next]_mu
 
 ----------------------------------------------------------------------------------------------------------------
@@ -521,7 +533,7 @@ MapConsistent == mu.k = "base" =>
 AcceptDerivable == mu.v = "A" => (mu.rt /\ mu.same)
 
 (* a mutation really mutates: bytes equal to the base iff the word got its own value back *)
-MutationApplied == (mu.k = "word" => (Unchanged <=> mu.w = W(mu.n))) /\ (mu.k \in {"trunc", "splice"} => ~Unchanged)
+MutationApplied == (mu.k = "word" => (Unchanged <=> mu.w = W(mu.n))) /\ (mu.k \in {"trunc", "splice", "term"} => ~Unchanged)
 UnchangedAccepted == (Unchanged /\ mu.canon) => mu.v = "A"
 
 (* every truncation of a valid encoding cuts inside a length-prefixed node (the outermost node is closed by the field count): it is
@@ -556,6 +568,12 @@ SpliceDisagrees == (mu.k = "splice" /\ IsMsgLike /\ mu.canon) =>
 
 (* a flattened String ends with a NUL: a name length that stops one byte early is refused for exactly that reason *)
 NameNulChecked == (mu.k = "word" /\ mu.enc = "msg" /\ mu.canon /\ mu.wk = "namelen" /\ mu.n >= 2 /\ mu.w = W(mu.n - 1)) => (mu.v = "R" /\ mu.why = "name-without-nul")
+
+(* ... and a name whose terminator is gone is MustReject; a string item without one is never derivable *)
+TerminatorChecked == (mu.k = "term" /\ mu.canon /\ mu.enc \in {"msg", "tmpl"}) =>
+   /\ mu.v # "A"
+   /\ mu.wk = "namelen" => (mu.v = "R" /\ mu.why = "name-without-nul")
+   /\ mu.wk = "itemlen" => (mu.v = "E" /\ mu.why = "string-item-without-nul")
 
 (* documented constants *)
 VersionChecked == (mu.k = "word" /\ mu.wk = "ver" /\ ~Unchanged) => mu.v = "R"
